@@ -14,6 +14,14 @@ HARNESSES = [
     Harness('c08_async_import_scalar_immediate_return', 'import.scalar_one_core_call_result_lifted', G + 'async import fetch(u32) -> u32', bounded=B),
 ]
 # written (harness/c08.rs) but beyond CBMC here (out of memory): String + executor + Box<dyn Future>; listed as not covered
+GS = 'generated Subtask implementation of an async import (crates/rust/src/interface.rs generate_guest_import_body_async: abi_layout, results_offset, params_lower, call_import, params_dealloc_lists, params_dealloc_lists_and_own, results_lift), copied out of the import function by rule R2 — '
+BS = 'one probe world; strings / lists of <= 2 bytes, list<record> of <= 1 element; the callbacks are called in the order the runtime uses (C21 proves that order for every host schedule)'
+CALLBACKS = [
+    Harness('c08_import_callbacks_flat_string', 'import.callbacks_flat_string', GS + 'greet(string) -> string (flat parameters)', bounded=BS),
+    Harness('c08_import_callbacks_indirect_params', 'import.callbacks_indirect_params', GS + 'store(string, list<u8>, u32) -> list<u8> (parameters in the block)', bounded=BS),
+    Harness('c08_import_callbacks_list_of_records_empty', 'import.callbacks_list_of_records_empty', GS + 'many(list<record { u64, string }>) -> u32, empty list', bounded=BS),
+    Harness('c08_import_callbacks_list_of_records_one', 'import.callbacks_list_of_records_one', GS + 'many(list<record { u64, string }>) -> u32, one element', bounded=BS),
+]
 NOT_FINISHING = ['c08_async_export_string_same_bytes_as_sync', 'c08_async_import_string_params_alive_during_call']
 
 
@@ -27,6 +35,12 @@ def run(rep, tier):
                'the generator is run with --runtime-path crate::rt so that the generated code resolves the runtime inside crates/guest-rust, where the '
                'file is mounted (cfg bytecodealliance_wit_bindgen_verif_c08); rule R1 attaches the mock host to task.return and the [async-lower] imports',
                'std\'s UTF-8 validation is a trusted stub (only ASCII is sent)')
+    only = os.environ.get('VERIF_ONLY')   # development aid (never used by the registered commands): run matching callback harnesses only
+    if only:
+        import re
+        d2 = rustgen.generate(rep, 'rustgen_asub', mock=True, hoist=True)
+        kani.run_harnesses(rep, d2, [h for h in CALLBACKS if re.search(only, h.name)], None, 'kani-rustgen', timeout_each=1800, harness_file=os.path.join(d2, 'src/lib.rs'), guard=False)
+        return
     d = rustgen.generate(rep, 'rustgen_async', extra_args=['--runtime-path', 'crate::rt'], mock=True,
                          mock_prefix='crate::rt::async_support::verif::c08::mockhost')
     mount = os.path.join(BUILD_ROOT, 'c08-mount')
@@ -38,4 +52,6 @@ def run(rep, tier):
             kani.run_harnesses(rep, rc.CRATE, HARNESSES, rc.FEATURES, 'kani-guest-c08', harness_file='/verif/harness/c08.rs', timeout_each=900)
         finally:
             kani.EXTRA_CFG[:] = []
+    d2 = rustgen.generate(rep, 'rustgen_asub', mock=True, hoist=True)
+    kani.run_harnesses(rep, d2, CALLBACKS, None, 'kani-rustgen', timeout_each=900, harness_file=os.path.join(d2, 'src/lib.rs'), guard=False, canary_id='canary.kani.callbacks')
     rep.functions.append('crates/guest-rust/src/rt/async_support.rs, subtask.rs, waitable.rs (real runtime, driven in place by /verif/harness/c08.rs)')
